@@ -112,9 +112,11 @@ CLAIMED = {
             "dense subsets) must print the model's trace; class and destructor programs must print the same under every schedule; the real "
             "timer thread runs under ThreadSanitizer",
             "Proof on the model for every operation list and every schedule (unbounded heap, arbitrary sharing and cycles); tied to "
-            "runtime_evaluator.cpp by differential runs through the BLOCH_VERIF schedule hook. Destructor timing under reference counting is "
-            "modelled separately (Life.Model, counts proved exact, see C08). PARTIAL: the interplay of reference counting with the cycle "
-            "collector and tracked-qubit objects are compared implementation-vs-implementation across schedules, not modelled; race freedom "
+            "runtime_evaluator.cpp by differential runs through the BLOCH_VERIF schedule hook. Destructors: reference counting and the collector "
+            "are modelled together (Life/Gc.lean: a collection clears garbage fields without touching counts, as m_limbo does) and "
+            "schedule_unobservable_with_destructors proves echo and destructor lines schedule-independent by a simulation with references "
+            "in flight; destructor heap programs under forced schedules must print that model's trace. PARTIAL: tracked-qubit objects "
+            "and class programs are compared implementation-vs-implementation across schedules, not modelled; race freedom "
             "and thread shutdown are observed with ThreadSanitizer (bounded), not proved.",
             "Trusted: Lean kernel (core-only), heap program renderer, harness hook (collect at statement boundary k iff schedule(k)), "
             "ThreadSanitizer. Defects found and repaired: temporaries not treated as roots, destructor runs depending on the schedule.",
